@@ -262,6 +262,43 @@ impl<'a, T: DictionaryAccess> Morpheme<'a, T> {
 //@end
 }
 
+// ---- the iterator over a result list and MorphemeList::get / len / iter (analysis/mlist.rs)
+//@extract sudachi/src/analysis/mlist.rs :: struct MorphemeIter
+//@end
+impl<T: DictionaryAccess> MorphemeList<T> {
+//@extract sudachi/src/analysis/mlist.rs :: impl<T: DictionaryAccess> MorphemeList<T> :: fn len
+//@  ret r
+//@  spec
+        ensures r == self.nodes.data@.len()
+//@end
+//@extract sudachi/src/analysis/mlist.rs :: impl<T: DictionaryAccess> MorphemeList<T> :: fn get
+//@  ret r
+//@  spec
+        ensures r.list == self, r.index == idx
+//@end
+//@extract sudachi/src/analysis/mlist.rs :: impl<T: DictionaryAccess> MorphemeList<T> :: fn iter
+//@  ret r
+//@  spec
+        ensures r.list == self, r.index == 0
+//@end
+}
+impl<'a, T: DictionaryAccess> MorphemeIter<'a, T> {
+// R11: `impl Iterator for MorphemeIter { fn next }` checked as an inherent fn of the same body
+//@extract sudachi/src/analysis/mlist.rs :: impl<'a, T: DictionaryAccess> Iterator for MorphemeIter<'a, T> :: fn next
+//@  rw R11 1 custom
+//@  | Option<Self::Item>
+//@  > Option<Morpheme<'a, T>>
+//@  ret r
+//@  spec
+        ensures
+            // C19 / C01: iteration yields the morphemes of positions index, index + 1, ... of the list, each once, and stops at its end
+            final(self).list == old(self).list,
+            old(self).index >= old(self).list.nodes.data@.len() ==> r is None && final(self).index == old(self).index,
+            old(self).index < old(self).list.nodes.data@.len() ==> r is Some && r->Some_0.list == old(self).list && r->Some_0.index == old(self).index
+                && final(self).index == old(self).index + 1,
+//@end
+}
+
 /// C01: for a token whose byte range is the byte range of its characters (bytes_match: v_path, v_node, l_c01) the surface is the
 /// original text between begin() and end()
 proof fn theorem_surface_is_range<T>(m: Morpheme<'_, T>, begin: int, end: int, surface: Seq<u8>)
